@@ -162,9 +162,17 @@ pub extern "C" fn shv_m_sigaction(sig: c_int, act: *const libc::sigaction, old: 
             ERRNO = libc::EINVAL;
         }
         ret(r as i64);
+        if r == 0 {
+            if let Some(f) = ON_SIGACTION_DONE {
+                // kernel fact: from this instant the new disposition is in force; a harness may let a
+                // signal arrive right here
+                f(sig, !act.is_null());
+            }
+        }
         r
     }
 }
+pub static mut ON_SIGACTION_DONE: Option<fn(c_int, bool)> = None;
 
 #[no_mangle]
 pub extern "C" fn shv_m_sigemptyset(_set: *mut libc::sigset_t) -> c_int {
